@@ -77,6 +77,17 @@ theorem heap_writable_is_cache (c : LRU) (id v : Nat) (hnew : c.contains id = fa
     rw [List.take_of_length_le]
     simp; omega
 
+/-- **a hit in `copyOnWriteSearch` (Model/Heap.visit)**: the key list of the cache after `Get` of a key it holds is the
+    key in front of the others - what the heap model does with its `writable` list -/
+theorem heap_visit_is_cache_get (c : LRU) (k : Nat) (h : c.contains k = true) :
+    (c.get k).1.keysMRU = k :: c.keysMRU.filter (· != k) ∧ (c.get k).2.isSome = true := by
+  have hk := (contains_iff c k).mp h
+  have hp : (c.peek k).isSome = true := (peek_some_iff c k).mpr hk
+  unfold LRU.get
+  cases hv : c.peek k with
+  | none => rw [hv] at hp; simp at hp
+  | some v => simp only [LRU.keysMRU, List.map_cons, keys_without, Option.isSome_some, and_self]
+
 /-! ### the pointer structure of list.go
 
   `Model/LRURing` is list.go statement by statement: a ring of entries with `next` / `prev` pointers that may be nil and
